@@ -1,6 +1,7 @@
 (* C18 property theorems.  Statements + exact + Check pin + Print Assumptions only. *)
 From ZV.Common Require Import Base.
 From ZV.C18 Require Import Model ProofsQueue ProofsOrder ProofsProgress ProofsComplete ProofsPar ProofsStream.
+From ZV.C18 Require Import ModelFiber ProofsFiber ProofsFiberReduce.
 From Coq Require Import Permutation.
 Open Scope N_scope.
 
@@ -246,3 +247,125 @@ Check collector_order :
     concat (cout c) ++ cbuf c = added ops /\
     (0 < maxb -> Forall (fun b => b <> [] /\ nlen b <= maxb) (cout c) /\ nlen (cbuf c) < maxb).
 Print Assumptions collector_order.
+
+(* FiberPool::parallel_map as the pool state machine (spawn with the semaphore of max_fibers permits, bodies that
+   return Ok, Err or panic, handles awaited in index order with `?`): for every input, every max_fibers and EVERY
+   schedule of spawn / acquire / run / finish steps, whenever the call returns it returns map g xs if every item
+   succeeds (order preserved, one result per item), and Err if some item fails or panics - never a shorter, shifted
+   or reordered vector; and with max_fibers >= 1 every schedule can be continued to one in which it returns
+   (no deadlock on the semaphore, also with fewer permits than items) *)
+Theorem parallel_map_is_map :
+  forall (A B : Type) (f : A -> outcome B) (g : A -> B) (xs : list A) (maxf : N) (steps : list pstep),
+    (forall r, pm_result (map f xs) (pool_run (map f xs) maxf steps) = Some r ->
+       ((forall x, In x xs -> f x = OOk (g x)) -> r = ROk (map g xs)) /\
+       ((exists x, In x xs /\ forall b, f x <> OOk b) -> r = RErr)) /\
+    (1 <= maxf -> exists more, pm_result (map f xs) (pool_run (map f xs) maxf (steps ++ more)) <> None).
+Proof. exact parallel_map_is_map_proof. Qed.
+Check parallel_map_is_map :
+  forall (A B : Type) (f : A -> outcome B) (g : A -> B) (xs : list A) (maxf : N) (steps : list pstep),
+    (forall r, pm_result (map f xs) (pool_run (map f xs) maxf steps) = Some r ->
+       ((forall x, In x xs -> f x = OOk (g x)) -> r = ROk (map g xs)) /\
+       ((exists x, In x xs /\ forall b, f x <> OOk b) -> r = RErr)) /\
+    (1 <= maxf -> exists more, pm_result (map f xs) (pool_run (map f xs) maxf (steps ++ more)) <> None).
+Print Assumptions parallel_map_is_map.
+
+(* parallel_for_each / every use of spawn: in every reachable state no body has run twice and only spawned bodies
+   ran; once all fibers are done every body has run exactly once (the execution log is a permutation of the
+   indices) - also the bodies behind a failed one, which parallel_for_each no longer waits for; an Ok return means
+   every item was visited exactly once and succeeded; an Err return means some body really failed *)
+Theorem parallel_for_each_visits_once :
+  forall (R : Type) (jobs : list (outcome R)) (maxf : N) (steps : list pstep),
+    let p := pool_run jobs maxf steps in
+    NoDup (p_log p) /\ (forall i, In i (p_log p) -> (i < length jobs)%nat) /\
+    (pool_done jobs p = true -> Permutation (p_log p) (seq 0 (length jobs))) /\
+    (forall l, pm_result jobs p = Some (ROk l) -> Permutation (p_log p) (seq 0 (length jobs)) /\ jobs = map OOk l) /\
+    (pm_result jobs p = Some RErr -> exists i o, nth_error jobs i = Some o /\ forall r, o <> OOk r).
+Proof. exact parallel_for_each_visits_once_proof. Qed.
+Check parallel_for_each_visits_once :
+  forall (R : Type) (jobs : list (outcome R)) (maxf : N) (steps : list pstep),
+    let p := pool_run jobs maxf steps in
+    NoDup (p_log p) /\ (forall i, In i (p_log p) -> (i < length jobs)%nat) /\
+    (pool_done jobs p = true -> Permutation (p_log p) (seq 0 (length jobs))) /\
+    (forall l, pm_result jobs p = Some (ROk l) -> Permutation (p_log p) (seq 0 (length jobs)) /\ jobs = map OOk l) /\
+    (pm_result jobs p = Some RErr -> exists i o, nth_error jobs i = Some o /\ forall r, o <> OOk r).
+Print Assumptions parallel_for_each_visits_once.
+
+(* The semaphore and the statistics in every reachable state: permits + fibers holding one = max_fibers (never more
+   than max_fibers bodies in flight), total_spawned / completed / failed count what they say, active_fibers counts
+   the permit holders plus the panicked bodies (as written: a panic skips the decrement), and when all fibers are
+   done all permits are back (shutdown() returns) and completed + failed + panicked = number of items *)
+Theorem fiber_pool_bounded :
+  forall (R : Type) (jobs : list (outcome R)) (maxf : N) (steps : list pstep),
+    let p := pool_run jobs maxf steps in
+    p_permits p + N.of_nat (count holds_permit (p_fibers p)) = maxf /\
+    p_spawned p = N.of_nat (length (p_fibers p)) /\
+    p_completed p = N.of_nat (count is_ok_done (p_fibers p)) /\
+    p_failed p = N.of_nat (count is_fail_done (p_fibers p)) /\
+    p_active p = N.of_nat (count holds_permit (p_fibers p) + count is_panic_done (p_fibers p)) /\
+    (pool_done jobs p = true -> p_permits p = maxf /\
+       p_completed p + p_failed p + N.of_nat (count is_panic_done (p_fibers p)) = N.of_nat (length jobs)).
+Proof. exact fiber_pool_bounded_proof. Qed.
+Check fiber_pool_bounded :
+  forall (R : Type) (jobs : list (outcome R)) (maxf : N) (steps : list pstep),
+    let p := pool_run jobs maxf steps in
+    p_permits p + N.of_nat (count holds_permit (p_fibers p)) = maxf /\
+    p_spawned p = N.of_nat (length (p_fibers p)) /\
+    p_completed p = N.of_nat (count is_ok_done (p_fibers p)) /\
+    p_failed p = N.of_nat (count is_fail_done (p_fibers p)) /\
+    p_active p = N.of_nat (count holds_permit (p_fibers p) + count is_panic_done (p_fibers p)) /\
+    (pool_done jobs p = true -> p_permits p = maxf /\
+       p_completed p + p_failed p + N.of_nat (count is_panic_done (p_fibers p)) = N.of_nat (length jobs)).
+Print Assumptions fiber_pool_bounded.
+
+(* The chunking of FiberPool::parallel_reduce as written (chunk_size = max(1, len / max(1, max_workers)),
+   items.chunks(chunk_size)): for every length and worker count - len < workers, len % chunk_size <> 0, workers = 0
+   included - the chunks concatenate to the input (every item in exactly one chunk, the trailing partial chunk
+   included), none is empty or longer than chunk_size, and at most 2 * max(1, max_workers) fibers are spawned *)
+Theorem reduce_chunks_partition :
+  forall (T : Type) (mw : N) (xs : list T),
+    concat (fp_chunks mw xs) = xs /\
+    Forall (fun c => c <> [] /\ nlen c <= chunk_size (nlen xs) mw) (fp_chunks mw xs) /\
+    nlen (fp_chunks mw xs) <= 2 * N.max 1 mw.
+Proof. exact (@fp_chunks_shape). Qed.
+Check reduce_chunks_partition :
+  forall (T : Type) (mw : N) (xs : list T),
+    concat (fp_chunks mw xs) = xs /\
+    Forall (fun c => c <> [] /\ nlen c <= chunk_size (nlen xs) mw) (fp_chunks mw xs) /\
+    nlen (fp_chunks mw xs) <= 2 * N.max 1 mw.
+Print Assumptions reduce_chunks_partition.
+
+(* FiberPool::parallel_reduce through the pool state machine: for an associative function with a two-sided identity,
+   every input, max_workers, max_fibers and every schedule of the chunk fibers, whenever the call returns it
+   returns the sequential left fold of all items; and with max_fibers >= 1 it can always return *)
+Theorem parallel_reduce_is_fold :
+  forall (T : Type) (g : T -> T -> T) (ident : T),
+    (forall a b c, g (g a b) c = g a (g b c)) -> (forall a, g ident a = a) -> (forall a, g a ident = a) ->
+    forall (mw maxf : N) (xs : list T) (steps : list pstep),
+      let op := fun a b => Some (g a b) in
+      (forall r, reduce_result op ident mw xs (pool_run (reduce_jobs op ident mw xs) maxf steps) = Some r ->
+                 r = Some (fold_left g xs ident)) /\
+      (1 <= maxf -> exists more,
+         reduce_result op ident mw xs (pool_run (reduce_jobs op ident mw xs) maxf (steps ++ more)) <> None).
+Proof. exact parallel_reduce_is_fold_proof. Qed.
+Check parallel_reduce_is_fold :
+  forall (T : Type) (g : T -> T -> T) (ident : T),
+    (forall a b c, g (g a b) c = g a (g b c)) -> (forall a, g ident a = a) -> (forall a, g a ident = a) ->
+    forall (mw maxf : N) (xs : list T) (steps : list pstep),
+      let op := fun a b => Some (g a b) in
+      (forall r, reduce_result op ident mw xs (pool_run (reduce_jobs op ident mw xs) maxf steps) = Some r ->
+                 r = Some (fold_left g xs ident)) /\
+      (1 <= maxf -> exists more,
+         reduce_result op ident mw xs (pool_run (reduce_jobs op ident mw xs) maxf (steps ++ more)) <> None).
+Print Assumptions parallel_reduce_is_fold.
+
+(* ... and if the function fails on some item whatever the accumulator, every schedule that returns returns Err *)
+Theorem parallel_reduce_error_surfaces :
+  forall (T : Type) (op : T -> T -> option T) (ident : T) (mw maxf : N) (xs : list T) (steps : list pstep) (x : T),
+    In x xs -> (forall a, op a x = None) ->
+    forall r, reduce_result op ident mw xs (pool_run (reduce_jobs op ident mw xs) maxf steps) = Some r -> r = None.
+Proof. exact parallel_reduce_error_proof. Qed.
+Check parallel_reduce_error_surfaces :
+  forall (T : Type) (op : T -> T -> option T) (ident : T) (mw maxf : N) (xs : list T) (steps : list pstep) (x : T),
+    In x xs -> (forall a, op a x = None) ->
+    forall r, reduce_result op ident mw xs (pool_run (reduce_jobs op ident mw xs) maxf steps) = Some r -> r = None.
+Print Assumptions parallel_reduce_error_surfaces.
